@@ -120,7 +120,22 @@ LegacyRoundTripOK(v) ==
   FromLegacy(ToLegacy(v.local, v.remotes)) = [local |-> v.local, remotes |-> BookmarksOnly(v.remotes)]
 
 (* --- reference transcription: view_to_proto / view_from_proto ---------- *)
-EncodeView(v) ==
+(* seeded bug "simplifies_targets": the encoder runs every target through    *)
+(* Merge::simplify ("cancelling pairs carry no information")                 *)
+MA == INSTANCE MergeAlgebra
+SimpT(t) == IF t = NoEntry THEN t ELSE MA!Simplify(t)
+SimpR(x) == IF x = NoRRef THEN x ELSE [x EXCEPT !.t = MA!Simplify(x.t)]
+SimplifyTargets(v) ==
+  [v EXCEPT !.local = [n \in Names |-> SimpT(v.local[n])],
+            !.tags = [n \in Names |-> SimpT(v.tags[n])],
+            !.gitRefs = [g \in GitRefNames |-> SimpT(v.gitRefs[g])],
+            !.gitHeads = [w \in Workspaces |-> SimpT(v.gitHeads[w])],
+            !.remotes = [r \in Remotes |-> [v.remotes[r] EXCEPT
+                            !.bookmarks = [n \in Names |-> SimpR(v.remotes[r].bookmarks[n])],
+                            !.tags = [n \in Names |-> SimpR(v.remotes[r].tags[n])]]]]
+
+EncodeView(v0) ==
+  LET v == IF Bug = "simplifies_targets" THEN SimplifyTargets(v0) ELSE v0 IN
   [head_ids      |-> v.heads,
    wc_commit_ids |-> v.wc,
    bookmarks     |-> ToLegacy(v.local, v.remotes),
